@@ -24,6 +24,8 @@ pub struct Case {
     pub sampler: String,
     pub scores: Vec<f32>,
     pub dense: bool,
+    /// sparse ids whose first id is 0 and last id is n-1 although the ids are not 0..n
+    pub ends: bool,
     pub draw: Option<f32>,
     pub isa: u8,
 }
@@ -32,12 +34,17 @@ fn sparse_ids(n: usize) -> Vec<u32> {
     (0..n).map(|i| 100 + (n - 1 - i) as u32).collect()
 }
 
+/// Unordered sparse ids that look dense at both ends: [0, 2n-1, 2n-2, ..., n-1]
+fn sparse_ids_dense_ends(n: usize) -> Vec<u32> {
+    (0..n).map(|i| if i == 0 { 0 } else if i == n - 1 { (n - 1) as u32 } else { (2 * n - i) as u32 }).collect()
+}
+
 impl Case {
     fn logits(&self) -> Logits {
         if self.dense {
             Logits::dense(self.scores.clone())
         } else {
-            Logits::sparse(self.scores.clone(), sparse_ids(self.scores.len()))
+            Logits::sparse(self.scores.clone(), if self.ends { sparse_ids_dense_ends(self.scores.len()) } else { sparse_ids(self.scores.len()) })
         }
     }
     fn to_json(&self) -> Json {
@@ -46,6 +53,7 @@ impl Case {
             "scores_bits": util::bits_json(&self.scores),
             "scores_text": show_vec(&self.scores),
             "dense": self.dense,
+            "ends": self.ends,
             "draw_bits": self.draw.map(|d| d.to_bits()),
             "draw_text": self.draw.map(|d| format!("{d:e}")),
             "draw_producible_by_locked_fastrand_2_3_0": self.draw.map(producible),
@@ -58,6 +66,7 @@ impl Case {
             sampler: j["sampler"].as_str()?.to_string(),
             scores: util::bits_from_json(&j["scores_bits"]),
             dense: j["dense"].as_bool()?,
+            ends: j["ends"].as_bool().unwrap_or(false),
             draw: j["draw_bits"].as_u64().map(|b| f32::from_bits(b as u32)),
             isa: j["isa"].as_u64()? as u8,
         })
@@ -380,7 +389,7 @@ pub fn run(ctx: Ctx) -> ! {
                 let lo = c * CHUNK;
                 let hi = (lo + CHUNK).min(sets.len());
                 for scores in &sets[lo..hi] {
-                    for dense in [true, false] {
+                    for (dense, ends) in [(true, false), (false, false), (false, true)] {
                         if *with_argmax {
                             // ArgMax: the set itself and the set with +inf / NaN put at each position
                             let mut variants = vec![scores.clone()];
@@ -394,7 +403,7 @@ pub fn run(ctx: Ctx) -> ! {
                                 }
                             }
                             for v in variants {
-                                let case = Case { sampler: "argmax".into(), scores: v, dense, draw: None, isa };
+                                let case = Case { sampler: "argmax".into(), scores: v, dense, ends, draw: None, isa };
                                 run_case(&case, &mn, &mut l);
                             }
                         }
@@ -403,6 +412,7 @@ pub fn run(ctx: Ctx) -> ! {
                                 sampler: "multinomial".into(),
                                 scores: scores.clone(),
                                 dense,
+                                ends,
                                 draw: Some(d),
                                 isa,
                             };
@@ -498,7 +508,7 @@ pub fn run(ctx: Ctx) -> ! {
             "argmax_extra_values_at_every_position(sets of size<=4)": ["inf", "NaN (observed, not judged)"],
             "draws": dr.iter().map(|d| format!("{d:e}")).collect::<Vec<_>>(),
             "draws_producible_by_locked_fastrand": dr.iter().map(|d| producible(*d)).collect::<Vec<_>>(),
-            "id_layouts": ["dense", "sparse ids 100+(n-1-i)"],
+            "id_layouts": ["dense", "sparse ids 100+(n-1-i)", "sparse unordered ids [0, 2n-1, ..., n+1, n-1] (first and last id look dense)"],
             "isa": util::ISA_NAMES,
             "seeds": "0..=255, each twice, 48 samples over 6 candidate sets, no forcing",
         },
